@@ -148,6 +148,67 @@ pub fn run(run: &RunInfo, c03: bool) -> Summary {
         });
     });
     // coverage witness: every field of every type non-baseline in at least one canonical value
+    // Decoding is a function of the bytes alone: a value must come back the same whatever the same
+    // thread decoded before, rejected inputs included (a counter, memo or scratch buffer that an
+    // error path leaves behind). On one thread: every truncation of the all-present and baseline
+    // rows of a type is fed to its decoder (accepted or rejected, either is fine), and after each
+    // type every collected row of every type is decoded and re-encoded again.
+    if !c03 && !skip_for_replay(run, "c01/after-rejected/") {
+        let part = par_for(1, |_, acc| {
+            let codec = Codec::new(&table);
+            let mut rows: Vec<(usize, Vec<u8>, String)> = vec![];
+            for (ti, ty) in types.iter().enumerate() {
+                for sl in [Slice::Baseline, Slice::AllPresent] {
+                    let mut n = 0;
+                    visit_slice(&table, ty, &sl, 1, &mut |v, _| {
+                        if n < 8 {
+                            if let Some(b) = codec.canonical(ty, v) {
+                                if !rows.iter().any(|(t, x, _)| *t == ti && *x == b) {
+                                    rows.push((ti, b, codec.debug_string(ty, v)));
+                                    n += 1;
+                                }
+                            }
+                        }
+                    });
+                }
+            }
+            let check_all = |after: &str, acc: &mut Acc| {
+                for (ti, b, want) in &rows {
+                    let ty = types[*ti];
+                    let real = reg.iter().find(|r| r.key == ty.key).unwrap();
+                    acc.count("calls", 2);
+                    acc.count("after_rejected_checks", 1);
+                    let key = format!("c01/after-rejected/{}/{:016x}/after={after}", ty.key, h64(b));
+                    match guarded(|| (real.decode_full)(b)) {
+                        Err(p) => acc.violation(viol(key, format!("type {}: after the truncated inputs of {after} had been decoded on this thread, decoding {} panicked: {p}", ty.key, hex_short(b)), 0)),
+                        Ok(Err(e)) => acc.violation(viol(key, format!("type {}: after the truncated inputs of {after} had been decoded on this thread, the valid bytes {} are rejected: {e:?}\nvalue: {want}", ty.key, hex_short(b)), 0)),
+                        Ok(Ok(d)) => {
+                            if d.debug != *want || d.reenc != *b || !d.rt_equal || d.rt_rest != 0 {
+                                acc.violation(viol(key, format!("type {}: after the truncated inputs of {after} had been decoded on this thread, {} decodes to\n  {}\ninstead of\n  {want}\n(re-encoded {}, equal after a second decode: {}, left over {})", ty.key, hex_short(b), d.debug, hex_short(&d.reenc), d.rt_equal, d.rt_rest), 0));
+                            }
+                        }
+                    }
+                }
+            };
+            check_all("nothing", acc);
+            for (ti, ty) in types.iter().enumerate() {
+                let real = reg.iter().find(|r| r.key == ty.key).unwrap();
+                for (t, b, _) in &rows {
+                    if *t != ti {
+                        continue;
+                    }
+                    for cut in 0..b.len() {
+                        acc.count("calls", 1);
+                        acc.count("truncated_inputs_fed", 1);
+                        let _ = guarded(|| (real.decode_quiet)(&b[..cut]).is_ok());
+                    }
+                }
+                check_all(&ty.key, acc);
+            }
+            acc.witness("values decoded again after rejected inputs on the same thread");
+        });
+        acc.merge(part);
+    }
     let mut total_fields = 0u64;
     for ty in &types {
         total_fields += ty.fields.len() as u64;
@@ -168,8 +229,8 @@ pub fn run(run: &RunInfo, c03: bool) -> Summary {
         )
     } else {
         (
-            format!("55 shipped types x all canonical values with <= {k} deviating fields (5.2 alphabets) + all-present rows + rows with 4..1000 items in every repeated field + sizing rows; each value is constructed natively, serialised and deserialised by the real code and compared with the type's own PartialEq. distinct_nontrivial = distinct (type, reference bytes) pairs"),
-            vec!["every field of every type is non-baseline in some canonical value".to_string(), "extended APDU length header used".to_string()],
+            format!("55 shipped types x all canonical values with <= {k} deviating fields (5.2 alphabets) + all-present rows + rows with 4..1000 items in every repeated field + sizing rows; each value is constructed natively, serialised and deserialised by the real code and compared with the type's own PartialEq; then, on one thread, every truncation of the baseline and all-present rows of each type is fed to its decoder and after each type every such row of every type is decoded and re-encoded again (the result must not depend on what was decoded or rejected before). distinct_nontrivial = distinct (type, reference bytes) pairs"),
+            vec!["every field of every type is non-baseline in some canonical value".to_string(), "extended APDU length header used".to_string(), "values decoded again after rejected inputs on the same thread".to_string()],
         )
     };
     Summary {
